@@ -97,7 +97,8 @@ pub fn c01(a: &Args) {
         let mut seen = 0usize;
         for_each_model(&cfg5, &mut r5, |file, tt| { seen += 1; if picked.len() < (if a.thorough() { 60 } else { 12 }) && matches!(file.fmt, Fmt::D4) && seen % 13 == 5 { picked.push((file.clone(), tt.clone())); } });
         for (file, tt) in picked {
-            for big in [70u32, 130, 200] {
+            for big in [70u32, 130, 200, 1026, 1100, 2100] {
+                if big > 1000 && !(file.n == 2 || file.n == 5) { continue; }
                 let lines = file.lines.clone();
                 let Ok(mut d) = guarded(move || ddnnife::parser::distribute_building(lines, Some(big), None)) else { out.fail("load-panic", &file.text(), &format!("-t {big}"), "panic", "a model"); continue };
                 out.eval(Some(format!("{}|-t {big}", file.text())));
